@@ -154,7 +154,14 @@ def agg_cases(ctx, rng, n, scratch, settings):
       __getattr__ = dict.__getitem__
     router = AggregatedConsistentHashingRouter(S(s2))
     reloaded = False
-    if k % 2:
+    if k % 5 == 4:
+      # the rules file is REMOVED while the relay runs: the re-read task clears the rules
+      os.unlink(path)
+      clock.advance(11)
+      rules, lines = [], ['(file removed)']
+      reloaded = True
+      open(path, 'w').close()
+    elif k % 2:
       # the rules file changes while the relay runs: the 10 s re-read task picks it up
       rules, lines = write_rules(rng, path)
       # the replacement carries a preserved modification time (mv / rsync -t / tar): newer than the file it
